@@ -24,16 +24,18 @@ TRANSFORMED = {
     "http_headers", "http_query_parameters", "additional_imports", "custom_formatters",
     "field_extra_keys", "field_extra_keys_without_x_prefix",
 }
+# plain-text options; "" (and "0") are FALSY-BUT-GIVEN values: a flag with an empty argument is a given option
 FREE_TEXT = {
-    "class_name": ["Root", "Top"],
-    "base_class": ["pkg.Base", "other.Base"],
-    "empty_enum_field_name": ["empty", "blank"],
-    "special_field_name_prefix": ["fld", "f"],
-    "original_field_name_delimiter": [" ", "-"],
-    "custom_file_header": ["# header one", "# header two"],
+    "class_name": ["Root", "Top", ""],
+    "base_class": ["pkg.Base", "other.Base", ""],
+    "empty_enum_field_name": ["empty", "blank", "", "0"],
+    "special_field_name_prefix": ["fld", "f", "", "0"],
+    "original_field_name_delimiter": [" ", "-", ""],
+    "custom_file_header": ["# header one", "# header two", ""],
     "custom_file_header_path": ["/nonexistent/hdr.txt"],
-    "encoding": ["utf-8", "latin-1"],
+    "encoding": ["utf-8", "latin-1", ""],
 }
+FALSY = {"", "0"}
 META = {"help", "no_color", "version"}
 
 
@@ -114,6 +116,13 @@ def campaign_merge(ck: Check, n: int) -> None:
         return out
 
     cases = [({}, {}), ({"output_model_type": "msgspec.Struct"}, {}), ({}, {"output_model_type": "msgspec.Struct"})]
+    for d, o in sorted(tab.items()):  # every plain-text option: empty value on the command line, alone and over a pyproject value
+        if o["kind"] == "text" and "" in o["values"]:
+            nonempty = [v for v in o["values"] if v not in FALSY][:1]
+            extra = {"snake_case_field": "True"} if d == "original_field_name_delimiter" else {}
+            cases.append(({}, {d: "", **extra}))
+            cases += [({d: v, **extra}, {d: "", **extra}) for v in nonempty]
+            cases += [({d: "", **extra}, {d: v, **extra}) for v in nonempty]
     cases += [(pick(rng, False), pick(rng, True)) for _ in range(n)]
     reqs = []
     for py, cli in cases:
@@ -138,6 +147,8 @@ def campaign_merge(ck: Check, n: int) -> None:
         camp.hit(f"py={len(py)},cli={len(cli)}")
         if set(py) & set(cli):
             camp.hit("both-present")
+        if any(v in FALSY for v in cli.values()):
+            camp.hit("cli-value-falsy-but-given")
         if py or cli:
             camp.distinct.add(json.dumps([py, cli], sort_keys=True))
         if model != impl:
@@ -411,14 +422,15 @@ def e2e_options(ck: Check, rn: Runner) -> list[dict]:
     if ck.tier == "thorough":
         return all_opts
     rng = ck.rng.fork("e2e-sample")
-    must = [o for o in all_opts if set(o) & {"use_annotated", "field_constraints", "snake_case_field"} or o == {"output_model_type": "msgspec.Struct"}]
+    must = [o for o in all_opts if set(o) & {"use_annotated", "field_constraints", "snake_case_field"} or o == {"output_model_type": "msgspec.Struct"}
+            or "" in o.values()]  # every falsy-but-given value is always run
     strata: dict[str, list[dict]] = {}
     for o in all_opts:
         if o in must:
             continue
         strata.setdefault(tab[sorted(o)[0]]["kind"], []).append(o)
     picked = list(must)
-    quota = {"bool": 9, "enum": 6, "enumlist": 2, "text": 2}
+    quota = {"bool": 7, "enum": 5, "enumlist": 2, "text": 2}
     for kind, pool in sorted(strata.items()):
         picked += rng.sample(pool, quota.get(kind, 2))
     return picked
@@ -446,6 +458,7 @@ def campaign_both_present(ck: Check, rn: Runner, cache: dict) -> None:
     t0 = time.time()
     rng = ck.rng.fork("both")
     jobs = []
+    must = []
     for key, res in cache.items():
         opts = json.loads(key)
         if len(opts) != 1 or "cli" not in res or res["cli"].get("rc") != 0:
@@ -455,9 +468,13 @@ def campaign_both_present(ck: Check, rn: Runner, cache: dict) -> None:
         others = [x for x in (["False"] if o["kind"] == "bool" else o["values"]) if x != v]
         if not others:
             continue
-        jobs.append((d, v, rng.choice(others), res["cli"]))
+        if v in FALSY:  # a falsy value on the command line over a non-empty pyproject value: always run
+            must.append((d, v, next((x for x in others if x not in FALSY), others[0]), res["cli"]))
+        else:
+            jobs.append((d, v, rng.choice(others), res["cli"]))
     if ck.tier == "quick":
-        jobs = rng.sample(jobs, 10)
+        jobs = rng.sample(jobs, 8)
+    jobs = must + jobs
 
     def one(job):
         d, v_cli, v_py, expect = job
@@ -467,6 +484,8 @@ def campaign_both_present(ck: Check, rn: Runner, cache: dict) -> None:
     for (d, v_cli, v_py, expect), got in pmap(one, jobs):
         camp.evaluations += 1
         camp.hit("kind:" + rn.tab[d]["kind"])
+        if v_cli in FALSY:
+            camp.hit("cli-value-falsy-but-given")
         camp.distinct.add((d, v_cli, v_py))
         if not same(got, expect):
             ck.fail({"oracle": "cli_wins", "option": d, "value": v_cli, "pyproject_value": v_py},
